@@ -112,6 +112,11 @@ def boundary_digests(args):
         c['pool'] = [vp[0] if isinstance(vp, (list, tuple)) else vp, pool_s]
     s = None
     out = dict(variant=variant.get('name'), digests=[], error=None)
+    if variant.get('explicit_blobs_dtype') and model.blob in ('float', 'int', 'f32'):
+        # the blob dtype given explicitly instead of inferred from the first blob: must be invisible
+        _orig_kw = model.sampler_kwargs
+        _dt = dict(float=np.float64, int=np.int64, f32=np.float32)[model.blob]
+        model.sampler_kwargs = lambda: dict(_orig_kw(), blobs_dtype=_dt)
     try:
         if variant.get('orders'):
             sp = ScriptedPool(variant['orders'])
